@@ -92,7 +92,7 @@ static void lst_make_sequence(vp_rng_t* r, int mode, uint64_t idx, seq_t* s)
         uint64_t t = (idx + (uint64_t)d * 7) % 26;
         if (t == 24 || t == 25) {            /* well-formed chain that ends 1..15 bytes before the end of a (nearly) full-size datagram, then a fragment of an ACF-CAN header */
             name = "chain-to-end-plus-header-fragment";
-            size_t T = 1500 - 4 * (1 + (size_t)vp_rng_below(r, 3)) - (t == 25 ? 4 * (size_t)vp_rng_below(r, 3) : 0);     /* chain end: 1476..1496 */
+            size_t T = 1500 - 4 * (1 + (size_t)vp_rng_below(r, 3)) - (t == 25 ? 4 * (size_t)vp_rng_below(r, (idx & 32) ? 17 : 3) : 0);     /* chain end: 1476..1496 */
             size_t o = acfo;
             memset(b, 0, sizeof b);
             if (udp) { Avtp_Udp_Init((Avtp_Udp_t*)b); }
@@ -115,6 +115,18 @@ static void lst_make_sequence(vp_rng_t* r, int mode, uint64_t idx, seq_t* s)
             size_t frag = 1 + (size_t)vp_rng_below(r, 1500 - o < 15 ? 1500 - o : 15);
             vp_rng_fill(r, b + o, frag);
             b[o] = (uint8_t)((AVTP_ACF_TYPE_CAN << 1) | (vp_rng_next(r) & 1));
+            if (t == 25 && o + 16 <= 1500 && (idx & 32)) {
+                /* or: a last message whose header is complete and well-formed but whose announced length (payload of up to 64
+                 * bytes) reaches beyond the end of the datagram - and of the receive buffer */
+                name = "chain-to-end-plus-message-longer-than-the-rest";
+                frag = 1500 - o;
+                uint8_t pl[64]; vp_rng_fill(r, pl, 64);
+                uint8_t tmp[96]; Avtp_Can_t* c = (Avtp_Can_t*)tmp; memset(tmp, 0, sizeof tmp);
+                Avtp_Can_Init(c);
+                uint16_t L = (uint16_t)(((mode & 1) ? 64 : 8) - vp_rng_below(r, 4));
+                Avtp_Can_CreateAcfMessage(c, (uint32_t)vp_rng_next(r) & 0x7ff, pl, L, (mode & 1) ? AVTP_CAN_FD : AVTP_CAN_CLASSIC);
+                memcpy(b + o, tmp, frag < 96 ? frag : 96);
+            }
             n = o + frag;
             { uint16_t L = (uint16_t)(n - acfo); if (tscf) Avtp_Tscf_SetStreamDataLength((Avtp_Tscf_t*)(b + cfo), L); else Avtp_Ntscf_SetNtscfDataLength((Avtp_Ntscf_t*)(b + cfo), L); }
             seq_add(s, b, n);
